@@ -92,7 +92,7 @@ fn recipients(out: &StepOut, verb: &str, target: &str) -> usize {
 }
 
 // acceptance of a target is C10's business: C01 judges the audience of accepted targets
-fn c01_owns(d: &Disc, out: &StepOut) -> bool {
+fn c01_owns(d: &Disc, out: &StepOut, _t: &Trace) -> bool {
     if !d.is_relay(&["PRIVMSG", "NOTICE"]) {
         return false;
     }
@@ -199,7 +199,7 @@ fn c07_build(cfg: &[u16]) -> Built {
     Built { cfg: c, prof, prelude_users: users, setup }
 }
 
-fn c07_owns(d: &Disc, out: &StepOut) -> bool {
+fn c07_owns(d: &Disc, out: &StepOut, _t: &Trace) -> bool {
     out.ctx == "JOIN" && not_panic(d) && probe_codes(d, out, &["353", "352", "319", "322"])
 }
 
@@ -261,7 +261,7 @@ fn c08_build(cfg: &[u16]) -> Built {
     Built { cfg: CfgSpec::default(), prof, prelude_users: users, setup }
 }
 
-fn c08_owns(d: &Disc, out: &StepOut) -> bool {
+fn c08_owns(d: &Disc, out: &StepOut, _t: &Trace) -> bool {
     // the MODE command itself and its probes, plus the enforcement of +t by a later TOPIC
     (out.ctx == "MODE#" && not_panic(d) && probe_codes(d, out, &["324", "353", "352", "319", "367", "348", "346"]))
         || (out.ctx == "TOPIC" && !out.is_probe && (d.is_relay(&["TOPIC"]) || d.is_numeric(&["482"])))
@@ -323,7 +323,7 @@ fn c09_build(cfg: &[u16]) -> Built {
     Built { cfg: CfgSpec::default(), prof, prelude_users: users, setup }
 }
 
-fn c09_owns(d: &Disc, out: &StepOut) -> bool {
+fn c09_owns(d: &Disc, out: &StepOut, _t: &Trace) -> bool {
     ["KICK", "TOPIC", "INVITE", "JOIN"].contains(&out.ctx.as_str())
         && not_panic(d)
         && probe_codes(d, out, &["353", "352", "319", "332", "331", "322"])
@@ -404,7 +404,7 @@ fn c10_build(cfg: &[u16]) -> Built {
     Built { cfg: CfgSpec::default(), prof, prelude_users: users, setup }
 }
 
-fn c10_owns(d: &Disc, out: &StepOut) -> bool {
+fn c10_owns(d: &Disc, out: &StepOut, _t: &Trace) -> bool {
     if !(out.ctx == "PRIVMSG" || out.ctx == "NOTICE") {
         return false;
     }
@@ -505,11 +505,14 @@ fn c11_build(cfg: &[u16]) -> Built {
         (K::Privmsg, 3),
     ]);
     oper_cfg(&mut s, &mut c, &mut prof);
+    // nicknames that differ only in letter case are different users for this server
+    prof.nicks.push("N0".into());
+    prof.nicks.push("N1".into());
     c.default_modes = ["", "", "", "w", "i", "o", "O", "ow"][s.pick(8)].to_string();
     Built { cfg: c, prof, prelude_users: users, setup: vec![] }
 }
 
-fn c11_owns(d: &Disc, out: &StepOut) -> bool {
+fn c11_owns(d: &Disc, out: &StepOut, _t: &Trace) -> bool {
     match d {
         Disc::Missing { line, .. } | Disc::Extra { line, .. } => {
             if line[0] == "S" {
@@ -607,8 +610,23 @@ fn c15_build(cfg: &[u16]) -> Built {
     Built { cfg: c, prof, prelude_users: users, setup }
 }
 
-fn c15_owns(d: &Disc, out: &StepOut) -> bool {
-    out.ctx == "NICK" && not_panic(d)
+fn c15_owns(d: &Disc, out: &StepOut, t: &Trace) -> bool {
+    if out.ctx == "NICK" && not_panic(d) {
+        return true;
+    }
+    // after an accepted rename: whatever was attached to the old nick must keep working under
+    // the new one - WALLOPS reception, admission by a pending invitation, away replies, ranks.
+    // Owned only when the discrepancy concerns a renamed user's connection or names a nick
+    // that took part in a rename.
+    if t.renamed_conns.is_empty() || matches!(d, Disc::Framing { .. } | Disc::Malformed { .. }) {
+        return false;
+    }
+    let about_renamed = d.conn().map_or(false, |c| t.renamed_conns.contains(&c))
+        || d.line().map_or(false, |l| l.iter().any(|x| t.renamed_nicks.iter().any(|n| x == n || x.ends_with(n.as_str()) || x.starts_with(&format!("{}!", n)))));
+    match d {
+        Disc::Panic { .. } | Disc::UnexpectedClose { .. } => ["WALLOPS", "PRIVMSG", "NOTICE", "JOIN", "INVITE", "KICK", "MODE#", "PART", "TOPIC"].contains(&out.ctx.as_str()),
+        _ => about_renamed && ["WALLOPS", "PRIVMSG", "NOTICE", "JOIN", "INVITE", "KICK", "MODE#"].contains(&out.ctx.as_str()),
+    }
 }
 
 fn c15_nontrivial(t: &Trace) -> Option<String> {
@@ -707,7 +725,7 @@ fn c16_build(cfg: &[u16]) -> Built {
     Built { cfg: c, prof, prelude_users: users, setup: vec![] }
 }
 
-fn c16_owns(d: &Disc, out: &StepOut) -> bool {
+fn c16_owns(d: &Disc, out: &StepOut, _t: &Trace) -> bool {
     match d {
         Disc::Missing { line, .. } | Disc::Extra { line, .. } if line[0] == "S" => {
             ["324", "322", "254", "331", "332", "403", "405", "329"].contains(&line[1].as_str())
@@ -771,7 +789,7 @@ fn c19_build(cfg: &[u16]) -> Built {
     Built { cfg: c, prof, prelude_users: users, setup: vec![] }
 }
 
-fn c19_owns(d: &Disc, _out: &StepOut) -> bool {
+fn c19_owns(d: &Disc, _out: &StepOut, _t: &Trace) -> bool {
     match d {
         Disc::Missing { line, .. } | Disc::Extra { line, .. } if line[0] == "S" => {
             ["251", "252", "254", "255", "265", "266", "303", "302"].contains(&line[1].as_str())
@@ -872,7 +890,7 @@ fn c02_build(cfg: &[u16]) -> Built {
 // C02 owns everything observable around registration contention: acceptance/refusal of nicks,
 // the absence of any effect of refused / unfinished connections (probes), the attribution of
 // relayed lines, and the survival of the legitimate owners.
-fn c02_owns(d: &Disc, out: &StepOut) -> bool {
+fn c02_owns(d: &Disc, out: &StepOut, _t: &Trace) -> bool {
     let reg_ctx = ["REGLINE", "CONNECT", "CLOSEUNREG", "NICK", "NEWUSER"].contains(&out.ctx.as_str());
     match d {
         Disc::Panic { .. } | Disc::UnexpectedClose { .. } => true,
@@ -997,7 +1015,7 @@ fn c03_build(cfg: &[u16]) -> Built {
     Built { cfg: c, prof, prelude_users: 1, setup: vec![("n0".into(), "JOIN #c0".into())] }
 }
 
-fn c03_owns(d: &Disc, out: &StepOut) -> bool {
+fn c03_owns(d: &Disc, out: &StepOut, _t: &Trace) -> bool {
     let reg_ctx = ["REGLINE", "CONNECT", "CLOSEUNREG", "NEWUSER", "PRELUDE"].contains(&out.ctx.as_str());
     reg_ctx && !matches!(d, Disc::Framing { .. } | Disc::Malformed { .. })
 }
